@@ -44,7 +44,7 @@ def jobs_for(tier, rng):
             e_ = max(range(m["ne"]), key=lambda x: m["pk"][s_][a_][x])
             m["pk"][s_][a_][e_] -= rng.choice([1, 1, 2])        # deficit of 1/16384 or 2/16384 (< 1e-4 / > 1e-4)
         jobs.append({"mdp": m, "kind": "VI", "gamma": [1, 1], "eps": [1, 1], "test": "span", "calls": [1], "mbs": 1024,
-                     "tag": f"deficient{k}", "must_complete": True})
+                     "tag": f"deficient{k}", "min_sweeps": 1})
     # a rare catastrophic event (probability 2^-127 - below the single-precision range - times a reward of 2^127):
     # the expectation must weigh it like any other event
     for k in range(6 if tier == "quick" else 60):
@@ -54,7 +54,7 @@ def jobs_for(tier, rng):
         jobs.append({"mdp": m, "kind": "VI", "gamma": rng.choice(GAMMAS[:3]), "eps": [1, 4], "test": rng.choice(["span", "max_diff"]),
                      "calls": [2], "mbs": rng.choice([3, 1024]),
                      "injects": [{"v": gen.rand_values(rng, m["ns"], vmax=6)} for _ in range(2)], "tag": f"rare{k}",
-                     "must_complete": True})
+                     "min_sweeps": 1})
     # events of probability exactly zero whose successor lies outside the state space (index beyond the last state)
     for k in range(5 if tier == "quick" else 40):
         m = T.random_mdp(rng, ns=rng.randint(3, 9), na=2, ne=3, PD=rng.choice([2, 4]), rmax=3, v0max=2, plain_render=True)
@@ -68,7 +68,7 @@ def jobs_for(tier, rng):
         jobs.append({"mdp": m, "kind": rng.choice(["VI", "VI", "SAVI"]), "gamma": rng.choice(GAMMAS[:3]), "eps": [1, 4],
                      "test": rng.choice(["span", "max_diff"]), "calls": [3], "mbs": rng.choice([2, 1024]), "shuffle": False,
                      "injects": [{"v": gen.rand_values(rng, m["ns"], vmax=6)} for _ in range(2)], "tag": f"wildzero{k}",
-                     "must_complete": True})
+                     "min_sweeps": 1})
     # coarse sub-stochastic rows (a problem may leave out events on purpose), including single-event problems whose
     # only event has an action-dependent probability below one
     for k in range(6 if tier == "quick" else 40):
@@ -84,7 +84,7 @@ def jobs_for(tier, rng):
         jobs.append({"mdp": m, "kind": "VI", "gamma": rng.choice(GAMMAS[:3]), "eps": [1, 4], "test": rng.choice(["span", "max_diff"]),
                      "calls": [2], "mbs": rng.choice([3, 1024]),
                      "injects": [{"v": gen.rand_values(rng, m["ns"], vmax=6)} for _ in range(2)], "tag": f"substochastic{k}",
-                     "must_complete": True})
+                     "min_sweeps": 1})
     # at scale: more states than the default max_batch_size of 1024 (several batches with the default configuration)
     for k in range(2 if tier == "quick" else 8):
         m = gen.union(rng, rng.randint(560, 640), PD=rng.choice([2, 4]), na=2, ne=2, rmax=3, v0max=2, plain=k % 2 == 0)
@@ -94,7 +94,7 @@ def jobs_for(tier, rng):
     # tens of thousands of states (many batches per device); the trace is reduced exactly (solver_worker.quotient)
     for N in ([20100] if tier == "quick" else [20100, 33000, 70001]):
         jobs.append({"mdp": gen.corridors(rng, N, [3, 5, 2]), "kind": "VI", "gamma": [1, 2], "eps": [1, 4], "test": "span",
-                     "calls": [4, 3], "mbs": rng.choice([1024, 3000]), "quotient": True, "must_complete": True,
+                     "calls": [4, 3], "mbs": rng.choice([1024, 3000]), "quotient": True, "min_sweeps": 1,
                      "tag": f"corridors{N}"})
     return jobs
 
@@ -115,11 +115,6 @@ def run(tier):
         rep.violation("spec:BackupLaws " + ",".join(res.violated), {"tlc": res.out[-3000:]})
     jobs = jobs_for(tier, rng)
     j2, traces = solverlib.run_jobs(jobs)
-    for j, t in zip(j2, traces):
-        # anti-vacuity: these traces must reach the model with their sweep (not be cut by the 32-bit range guard)
-        if j.get("must_complete") and "crash" not in t and not any(e["e"] == "sweep" for e in t.get("ev", [])):
-            raise C.MachineryError(f"job {j.get('tag')} was meant to carry a sweep into the model but was truncated: "
-                                   f"{t.get('skip')}")
     solverlib.judge(rep, j2, traces, label="C02")
     for j, t in list(zip(j2, traces))[:3]:
         if "ev" in t:
